@@ -112,7 +112,7 @@ def bounded(ctx, b):
 
         def one(depth=depth, rows=rows, texts=texts, dbl=dbl, drop=drop, gaps=gaps, every=every):
             doc = rollup_doc(rng, depth, rows, texts, dbl, drop, gaps, every)
-            caps = SCCReader().read(doc).get_captions("en-US")
+            caps = _SHARED_READER.read(doc).get_captions("en-US")
             ok, d = check_captions(caps, texts)
             if not ok:
                 return False, dict(d, doc=doc[:600])
@@ -135,7 +135,7 @@ def bounded(ctx, b):
 
         def two(rowsets=rowsets, dbl=dbl, drop=drop, gaps=gaps):
             doc = painton_doc(rng, rowsets, dbl, drop, gaps)
-            caps = SCCReader().read(doc).get_captions("en-US")
+            caps = _SHARED_READER.read(doc).get_captions("en-US")
             ok, d = check_captions(caps, [t for rows in rowsets for _, t in rows])
             return ok, (dict(d, doc=doc[:600]) if d else None)
         b.guard(("painton", i), two, sample={"mode": "paint-on", "rows": [[r for r, _ in rows] for rows in rowsets], "doubled": dbl, "drop": drop})
@@ -148,7 +148,7 @@ def bounded(ctx, b):
                 lines.append((C.timecode(t, drop), ws))
                 t += 75
             lines.append((C.timecode(t, drop), [C.ctrl("CR")]))
-            caps = SCCReader().read(C.scc_document(lines)).get_captions("en-US")
+            caps = _SHARED_READER.read(C.scc_document(lines)).get_captions("en-US")
             ok, d = check_captions(caps, ["BEFORE THE HOUR", "AT THE HOUR", "AFTER"])
             return ok and all(a.end == b_.start for a, b_ in zip(caps, caps[1:])), d
         b.guard(("hour", drop), three, sample={"mode": "roll-up across 01:00:00", "drop": drop})
@@ -166,3 +166,8 @@ def run(ctx):
               "SCCReader._translate_command is bounded-checked only (protocol-level conservation invariant)")
     ctx.assume("conservation is checked at the granularity of rows (whitespace-normalised), as the statement's 'text of "
                "each transmitted row kept together'")
+
+
+# one reader object for every stream of the run: what a read returns must depend on the stream only,
+# also right after a read that raised (reader reuse)
+_SHARED_READER = SCCReader()
